@@ -321,11 +321,11 @@ impl XType {
                         return None;
                     }
                     let mut bind = Bind::new();
+                    // the arguments come back in the order of the names
                     for (gen_name, (gen_arg0, gen_arg1)) in a.generic_names.iter().zip(
                         a.generics_with_bind(bind_a)
                             .iter()
-                            .zip(b.generics_with_bind(bind_b).iter())
-                            .rev(),
+                            .zip(b.generics_with_bind(bind_b).iter()),
                     ) {
                         bind.bound_generics
                             .insert(*gen_name, gen_arg0.common_type(gen_arg1)?);
